@@ -110,7 +110,7 @@ type b3State struct {
 	bad string
 }
 
-func (s *b3State) Key() string   { return fmt.Sprintf("%v|%s", s.own, s.bad) }
+func (s *b3State) Key() string  { return fmt.Sprintf("%v|%s", s.own, s.bad) }
 func (s *b3State) Copy() PState { n := *s; return &n }
 
 func ruleB3(r *Run) {
@@ -301,9 +301,32 @@ func recvType(f *types.Func) types.Type {
 
 func ruleB4(r *Run) {
 	p := r.P
-	fd, pkg := p.DeclOf("io", "newNamedStructEncoder")
+	// the function that builds the class definition: the one that appends the class tag to a byte
+	// slice (newNamedStructEncoder on the reference tree; a helper extracted from it is the same thing)
+	var fd *ast.FuncDecl
+	pkg := p.Pkg("io")
+	if pkg != nil {
+		for _, file := range pkg.Syntax {
+			for _, d := range file.Decls {
+				cand, ok := d.(*ast.FuncDecl)
+				if !ok || cand.Body == nil {
+					continue
+				}
+				ast.Inspect(cand.Body, func(m ast.Node) bool {
+					if call, ok := m.(*ast.CallExpr); ok && IsBuiltin(pkg.TypesInfo, call, "append") {
+						for _, a := range call.Args[1:] {
+							if k := constOf(pkg.TypesInfo, a); k != nil && k.Name() == "TagClass" {
+								fd = cand
+							}
+						}
+					}
+					return true
+				})
+			}
+		}
+	}
 	if fd == nil {
-		r.Undec("newNamedStructEncoder", 0, "function not found")
+		r.Undec("class definition builder", 0, "no function appends TagClass to a byte slice")
 		return
 	}
 	info := pkg.TypesInfo
@@ -320,7 +343,7 @@ func ruleB4(r *Run) {
 		}
 	}
 	if fieldsObj == nil || nObj == nil {
-		r.Undec("metadata count variable", fd.Pos(), "no `n := len(fields)` in newNamedStructEncoder")
+		r.Undec("metadata count variable", fd.Pos(), "no `n := len(fields)` in the function that builds the class definition")
 	} else {
 		if g, ok := defs[fieldsObj]; ok {
 			if call, ok := ast.Unparen(g).(*ast.CallExpr); ok {
@@ -471,6 +494,10 @@ func isLenOfField(info *types.Info, defs map[types.Object]ast.Expr, e ast.Expr, 
 					return true
 				}
 			}
+		}
+		// through a helper that hands the field out (fields, metadata := valenc.snapshot())
+		if fv, ok := rootObj(info, defs, a, 0).(*types.Var); ok && fv.IsField() && fv.Name() == field {
+			return true
 		}
 	}
 	return false
